@@ -11,6 +11,10 @@ try:
 except ImportError:  # pragma: no cover
     OR = None
 try:
+    from . import pass_rules as PR
+except ImportError:  # pragma: no cover
+    PR = None
+try:
     from . import extra_rules as XR
 except ImportError:  # pragma: no cover
     XR = None
@@ -37,16 +41,16 @@ RULES = {
     "R20": RR.r20_ownership_edges,
     "R8": _get(OR, "r8_attach_iff_tracked"),
     "R9": _get(ER, "r9_slot_arity_and_gate"),
-    "R10": _get(ER, "r10_flag_writers_and_pairing"),
-    "R11": _get(ER, "r11_shape_typestate"),
+    "R10": _get(PR, "r10_flag_writers_and_pairing"),
+    "R11": _get(PR, "r11_shape_typestate"),
     "R12": _get(OR, "r12_param_dependence"),
     "R13": _get(OR, "r13_linearity"),
-    "R14": _get(ER, "r14_default_seed"),
+    "R14": _get(PR, "r14_default_seed"),
     "R15": _get(OR, "r15_accumulate_on_scatter"),
     "R21": _get(OR, "r21_fresh_parameter"),
-    "R23": _get(ER, "r23_engine_state_layering"),
-    "R24": _get(ER, "r24_count_protocol"),
-    "R25": _get(ER, "r25_accumulate_arms"),
+    "R23": _get(PR, "r23_engine_state_layering"),
+    "R24": _get(PR, "r24_count_protocol"),
+    "R25": _get(PR, "r25_accumulate_arms"),
     "R22": _get(XR, "r22_update_alignment"),
     "R26": _get(XR, "r26_engine_control"),
     "R27": _get(XR, "r27_slot_identity"),
@@ -54,13 +58,13 @@ RULES = {
 
 # property -> rules (DESIGN.md section 4)
 PROPERTY_RULES = {
-    "C01": ["R9", "R5", "R6", "R24", "R11", "R25", "R23", "R26"],
+    "C01": ["R9", "R5", "R27", "R6", "R24", "R11", "R25", "R23", "R26"],
     "C02": ["R12", "R13", "R15", "R9"],
     "C03": ["R11", "R21"],
     "C08": ["R1", "R2", "R3", "R4", "R7"],
     "C09": ["R8", "R9", "R10", "R5"],
     "C10": ["R23", "R20", "R25", "R9", "R11", "R10", "R26"],
-    "C11": ["R24", "R5", "R6", "R26"],
+    "C11": ["R24", "R5", "R27", "R6", "R26"],
     "C12": ["R5", "R27", "R6", "R7", "R17"],
     "C13": ["R21", "R22"],
     "C16": ["R16", "R3", "R17"],
